@@ -110,3 +110,55 @@ func C11EarlyReply() {
 	sym.Assert(sym.EqBytes(got, payload), "early-reply-payload")
 	sym.Reach("early-reply-done")
 }
+
+// C11ManyPending: more pending calls than the endpoint's initial handler table (10 slots) plus a
+// disconnect callback: when the peer vanishes every one of them returns.
+func C11ManyPending() {
+	s := newZZStream()
+	e := net.NewEndPoint(s)
+	c := NewClient(NewChannel(e, DefaultCap()))
+	var disconnects int32
+	c.OnDisconnect(func(err error) { atomic.AddInt32(&disconnects, 1) })
+	const pending = 11
+	res := make([]chan zzCallRes, pending)
+	for i := 0; i < pending; i++ {
+		res[i] = make(chan zzCallRes, 1)
+		go func(i int) {
+			p, err := c.Call(nil, 1, 1, uint32(100+i), []byte{byte(i)})
+			res[i] <- zzCallRes{p, err}
+		}(i)
+	}
+	sym.Quiesce()
+	if sym.Bool("local-close") {
+		e.Close()
+	} else {
+		s.peerClose()
+	}
+	sym.Quiesce()
+	for i := 0; i < pending; i++ {
+		r := <-res[i]
+		sym.Assert(r.err != nil, "pending-call-succeeded-without-reply")
+	}
+	sym.Assert(atomic.LoadInt32(&disconnects) == 1, "disconnect-callback-exactly-once")
+	sym.Reach("many-pending-done")
+}
+
+// C11CallRacingWithLoss: a call is issued while the connection is being torn down after a read
+// failure (the write side still accepts data): it must return, with a result or an error.
+func C11CallRacingWithLoss() {
+	s := newZZStream()
+	e := net.NewEndPoint(s)
+	c := NewClient(NewChannel(e, DefaultCap()))
+	done := make(chan zzCallRes, 1)
+	go func() {
+		p, err := c.Call(nil, 1, 1, 7, []byte{1})
+		done <- zzCallRes{p, err}
+	}()
+	go func() { s.peerClose() }()
+	sym.Quiesce()
+	<-done // blocked forever = deadlock finding
+	// and the connection is dead for later calls
+	_, err := c.Call(nil, 1, 1, 8, nil)
+	sym.Assert(err != nil, "call-after-loss-succeeded")
+	sym.Reach("racing-call-done")
+}
